@@ -153,6 +153,11 @@ class SynthDef(metaclass=MetaSynthDef):
                 _libsc3.main._current_synthdef = self
                 self._init_build()
                 self._build_ugen_graph(func, rates, prepend)
+                # Positional arguments of __call__ are the graph function's
+                # own control parameters (not prepended, not wrapped ones).
+                self._callable_args = list(
+                    inspect.signature(func).parameters.keys())[
+                        len(utl.as_list(prepend)):]
                 self._finish_build()
                 self._func = func
                 _libsc3.main._current_synthdef = None
@@ -221,7 +226,6 @@ class SynthDef(metaclass=MetaSynthDef):
             raise TypeError('func argument is not a function')
 
         sig = inspect.signature(func)
-        self._callable_args = list(sig.parameters.keys())
         params = list(sig.parameters.values())
 
         if not params:
